@@ -46,3 +46,6 @@ pub open spec fn ipa_u(vk: &VerifierKey, cs: Seq<&LabeledCommitment<Commitment>>
     let v = ipa_acc_v(cs, vs, z@, (vk.comm_key@.len() - 1) as nat, s, n);
     ipa_rcs(ipa_first(ipa_comb(vk, cs, vs, z, pr, s, n), z@, v), pr.l_vec@, pr.r_vec@, min(pr.l_vec@.len(), pr.r_vec@.len()))
 }
+// k = ceil(log2 n): the least k with n <= 2^k;  the key `check` recomputes from the round challenges
+pub open spec fn is_ceil_log2(n: nat, k: nat) -> bool { n <= p2(k) && (n > 1 ==> p2((k - 1) as nat) < n) && (n <= 1 ==> k == 0) }
+pub open spec fn ipa_final_key(vk: &VerifierKey, u: Seq<FS>) -> FS { msm(vk.comm_key@, scp_coeffs(u), min(vk.comm_key@.len(), scp_coeffs(u).len())) }
